@@ -28,6 +28,7 @@ func runC12(c *Ctx) {
 	c.rule("T2", "in a runner's select the timeout/cancel case triggers the action's stop signal before waiting for the action and yields the timeout kind; the completion case yields the action's own result", 4)
 	c.rule("T3", "every cancel function from context.With* is called on every exit or registered in a CancelFunctionStore; every store created in a function is cancelled on every exit", 5)
 	c.rule("T4", "CancelFunctionStore.cancelFunctions is appended under mu.Lock and read under at least mu.RLock; Cancel's loop has no early exit", 4)
+	c.rule("T7", "the runners report the end of a context by its Err() (converted): context.Cause is not used in package parallelisation or in commonerrors", 0)
 	c.rule("T6", "Parallelise: the value handed to reflect.Append is not the bare reflect.ValueOf of a result that may be nil: its validity is tested (nil results are results too)", 1)
 	c.rule("T5", "Parallelise: one goroutine per index < length, each calls the action exactly once before its single send; the result loop is bounded by the same length", 3)
 
@@ -42,6 +43,7 @@ func runC12(c *Ctx) {
 	c.c12Store()
 	c.c12Parallelise()
 	c.c12NilResults()
+	c.noContextCause("T7", []string{"parallelisation", "commonerrors"})
 }
 
 // chanOrigin follows a channel value to its MakeChan (through closure
